@@ -352,6 +352,9 @@ func c10(ctx *Ctx) (*Outcome, error) {
 	for i := 0; i < ctx.N(10, 20); i++ {
 		cases = append(cases, sameStemCase(i))
 	}
+	for i := 0; i < 8; i++ {
+		cases = append(cases, bothDefsKeywordsCase(i))
+	}
 	// pinned witness: root self reference "#" is generated as interface{} (recorded finding root-self-ref-untyped)
 	{
 		root := &sg.Schema{Types: []string{"object"}, Props: []sg.Prop{{Name: "value", S: &sg.Schema{Types: []string{"integer"}, Max: sg.Fp(9)}}}}
